@@ -209,11 +209,12 @@ func init() {
 			{Name: "VC15_SignedUpdateFaults", Params: map[string]int{"vsymC11Name": 2}, NeedReach: []string{"end", "signer-failed", "ok"}},
 			{Name: "VC15_ImageSignFault", NeedReach: []string{"end", "signer-failed", "signed"}},
 			{Name: "VC15_ImageReaderFault", NeedReach: []string{"end", "faulted", "clean"}},
+			{Name: "VC15_VerifyReaderFault", NeedReach: []string{"end", "verify-faulted", "verify-clean", "hash-faulted"}},
 		},
 		Bounds: []string{"write variable: every position of the call sequence OpenFile / Write / Close may fail (symbolic fault bits, all combinations), and Write may be short by any symbolic count; read variable: Open / Stat / every Read may fail", "asserted: any injected fault => non-nil error, nothing decoded after a failed read",
 			"signer: Sign may fail (symbolic fault bit) in SignPKCS7 (3 content types), in PECOFFBinary.Sign on the shipped test image (error, no signature returned, Signatures() and Bytes() unchanged) and in WriteSignedUpdate combined with all file-system faults (failed signing writes nothing)",
-			"image reader: every one of the ReadAt calls Parse issues on the shipped test image may fail: error and no parsed object"},
-		Outside: []string{"reader failures during Hash / Verify of an already parsed image (Parse reads the whole file; later operations read from memory)", "a failing Close after a complete read is not asserted (it does not invalidate the data read)", "images other than the shipped unsigned test image for the image-level fault harnesses (the image is concrete there; the fault positions are symbolic)"},
+			"image reader: every one of the ReadAt calls Parse issues on the shipped test image may fail: error and no parsed object; on a doubly signed image every ReadAt call of Verify and Hash may fail (all combinations): never success, error reported, no digest"},
+		Outside: []string{"a failing Close after a complete read is not asserted (it does not invalidate the data read)", "images other than the shipped unsigned test image for the image-level fault harnesses (the image is concrete there; the fault positions are symbolic)"},
 		Assumptions: commonAssumptions,
 	}
 	registry["C05"] = &Property{
@@ -231,5 +232,21 @@ func init() {
 			"decided: output = 16-byte timestamp (UTC calendar fields of the clock, other fields zero) || dwLength=24+len(SignedData), revision 0x0200, type 0x0EF1, PKCS7 type GUID in wire order || bare detached SignedData equal byte for byte to the reference encoding over UTF-16LE(name)||GUID||attrs||timestamp||payload || payload"},
 		Outside: []string{"non-ASCII names", "acceptance by real firmware", "payload kinds beyond raw bytes (a database payload is its encoding, C07)"},
 		Assumptions: append([]string{"signature, hash and time models as in C05; native replays run with TZ set from the model (Etc/GMT±h)"}, commonAssumptions...),
+	}
+	registry["C02"] = &Property{
+		Quick:    []HarnessSpec{{Name: "VC02_SignedImage", Params: map[string]int{"vsymC02Stride": 64, "vsymC02Regions": 3}, MaxDecisions: 2000, TimeoutSec: 600, NeedReach: []string{"complete", "end"}}},
+		Thorough: []HarnessSpec{{Name: "VC02_SignedImage", Params: map[string]int{"vsymC02Stride": 8, "vsymC02Regions": 4}, MaxDecisions: 4000, MaxPaths: 400000, TimeoutSec: 7200, NeedReach: []string{"complete", "end"}}},
+		Bounds: []string{"the shipped unsigned test image (concrete, 3825 bytes, 5 sections), signed by the library under the signature model with a symbolic serial; verified against the signer (must succeed), against another key under the same issuer and serial, and against an unrelated certificate (must not)",
+			"single-byte changes with symbolic value: every position of the section data (position symbolic per 512-byte window); each of the 32 bytes of the embedded image digest; issuer/serial bytes (all), signed-attribute bytes (stride 8) and signature bytes (stride 64) inside the SignerInfo; thorough adds sampled header bytes and the symbol-table window and stride 1/8",
+			"decided: Verify(cert) is not true for any of these mutants (collision resistance of SHA-256 stated exactly for equal-length inputs; unforgeability of the signature model)"},
+		Outside: []string{"multi-byte edits other than those composed by C04's unit harness", "images other than the fixture (C01 shows the digest is the specification's for symbolic images)", "unauthenticated parts of the blob (certificate bag, versions, algorithm identifiers): changes there may still verify and are not asserted", "header-byte mutations that redirect debug/pe into symbolic offsets of the concrete image are reported as unsupported paths, not as held"},
+		Assumptions: append([]string{"signature model: only signatures produced by Sign on the path verify; certificates for different keys differ in issuer or serial unless made by CertSameID", "SHA-256 model with functional consistency and collision resistance between equal-length inputs"}, commonAssumptions...),
+	}
+	registry["C04"] = &Property{
+		Quick:    []HarnessSpec{{Name: "VC04_VerifySound", Params: map[string]int{"vsymC04Signers": 2}, MaxDecisions: 2000, TimeoutSec: 600, NeedReach: []string{"honest-verifies", "accepted", "rejected", "end"}}},
+		Bounds: []string{"unit level: the parsed SignedData is arbitrary — 1..2 signer entries with symbolic issuer, serial, content type, 32-byte message digest and 256-byte signature; encapsulated content present or absent with symbolic bytes; the honest key has produced one real signature (SignPKCS7) that the adversary may reuse",
+			"decided: Verify(cert) = true only if some entry names the certificate, its signature is valid under the certificate's key over that entry's attribute SET, and (content encapsulated) its message digest equals SHA-256 of the content; completeness: the honest blob parses and verifies"},
+		Outside: []string{"byte-level edits of real blobs (covered for the Authenticode blob by C02)", "attribute bytes that differ from their canonical re-encoding (the fix 4b3bc85 makes verification use the original bytes; a DER-level harness over symbolic attribute encodings is not built)", "EFIVariableAuthentication2.Verify entry point (thin wrapper)"},
+		Assumptions: append([]string{"signature and hash models as in C02"}, commonAssumptions...),
 	}
 }
